@@ -35,6 +35,26 @@ fn strategy_en(len: usize) -> BoxedStrategy<Case> {
         .boxed()
 }
 
+/// Plain inputs in the hot window plus CSE array formulas entered *below* it (rows 20..), so that
+/// no array reads its own range (listed finding), with undo / redo; no cut, paste or structural
+/// operation (listed findings on CSE arrays under those).
+fn strategy_arrays(len: usize) -> BoxedStrategy<Case> {
+    use crate::engine::inputs::{cell_input, history_formula_with, InputClass, HOT_COLS, HOT_ROWS};
+    let input = (0..2u8, 1..=HOT_ROWS, 1..=HOT_COLS, cell_input(InputClass::Plain))
+        .prop_map(|(s, row, col, text)| Op::Input { s, row, col, text });
+    let array = (0..2u8, 20..26i32, 1..=HOT_COLS, 1..4i32, 1..4i32, history_formula_with(false))
+        .prop_map(|(s, row, col, w, h, text)| Op::ArrayFormula { s, row, col, w, h, text });
+    let ops = prop::collection::vec(
+        prop_oneof![6 => input, 4 => array, 1 => Just(Op::Undo), 1 => Just(Op::Redo), 1 => Just(Op::NewSheet)],
+        2..=len,
+    );
+    ops.prop_map(|mut ops| {
+        ops.insert(0, Op::NewSheet);
+        Case { locale: "en".into(), language: "en".into(), profile: Profile::Edit, ops }
+    })
+    .boxed()
+}
+
 fn strategy(len: usize, profile: Profile) -> BoxedStrategy<Case> {
     let ops = prop::collection::vec(
         prop_oneof![
@@ -200,7 +220,7 @@ pub fn run(ctx: &Ctx) {
     ctx.assume("error origin / message strings are not compared after re-evaluation (only error kinds)");
     let restricted = ctx.avoid("restricted-profiles");
     let (cases, len) = match ctx.tier {
-        Tier::Quick => (40000, 14),
+        Tier::Quick => (200000, 14),
         Tier::Thorough => (1000000, 40),
     };
     let enc = |c: &Case| serde_json::to_value(c).unwrap_or(Value::Null);
@@ -209,6 +229,7 @@ pub fn run(ctx: &Ctx) {
         ctx.campaign("states-structural", cases / 2, || strategy(len, Profile::Structural), check, enc);
         // the full operation language in en/en (the listed re-parse findings need another language)
         ctx.campaign("states-full-en", cases / 2, || strategy_en(len), check, enc);
+        ctx.campaign("states-arrays", cases / 4, || strategy_arrays(len), check, enc);
     } else {
         ctx.campaign("states", cases, || strategy(len, Profile::Full), check, enc);
     }
